@@ -102,24 +102,37 @@ def setNormal (l : Loop α) : Loop α × Res Unit :=
     ({ l with normal := (ab.cross bc).normalize }, .ok ())
   | _ => (l, .err "loop3d.rs:set_normal:less-than-3")
 
-/-- the vertex list after the "replace last or append" step of `push` -/
-def pushVertices (vs : List (V3 α)) (point : V3 α) : Res (List (V3 α)) :=
-  let n := vs.length
-  if 2 ≤ n then do
-    let a ← vget vs (n - 2) "loop3d.rs:push:a"
-    let b ← vget vs (n - 1) "loop3d.rs:push:b"
-    -- a repeated point adds nothing
-    if b.compare point then .ok vs else
-    -- `a.is_collinear(b, point).unwrap_or(true)`
-    if (a.isCollinear b point).getD true then
-      -- a collinear point that folds the outline back onto its last edge is refused
-      let ab := b - a
-      let bc := point - b
-      if !(a.compare b) && ab.dot bc <. (0 : α)
-          && (ab.cross bc).length <. (1e-5 : α) * ab.length * bc.length then .err "loop3d.rs:push:fold-back"
-      else .ok (vs.set (n - 1) point)
-    else .ok (vs ++ [point])
-  else .ok (vs ++ [point])
+/-- the `loop { … }` of `push` that drops the vertices the new point makes redundant: the vertex list and normal it
+leaves and whether the point is still to be appended (`false` = the early `return Ok(())` for a repeated point).
+Every iteration but the last pops a vertex, so `length + 1` iterations always suffice (`pushDrop_fuel`). -/
+def pushDrop (point : V3 α) : Nat → List (V3 α) → V3 α → Res (List (V3 α) × V3 α × Bool)
+  | 0, _, _ => .panic "model:pushDrop:out-of-fuel"
+  | fuel + 1, vs, nrm =>
+    let n := vs.length
+    let rep : Res Bool :=
+      if 1 ≤ n then do
+        let b ← vget vs (n - 1) "loop3d.rs:push:last"
+        pure (b.compare point)
+      else pure false
+    match rep with
+    | .err e => .err e
+    | .panic p => .panic p
+    | .ok true => .ok (vs, nrm, false)
+    | .ok false =>
+      if 2 ≤ n then
+        match vget vs (n - 2) "loop3d.rs:push:a", vget vs (n - 1) "loop3d.rs:push:b" with
+        | .ok a, .ok b =>
+          -- `a.is_collinear(b, point).unwrap_or(true)`
+          if (a.isCollinear b point).getD true then
+            let vs' := vs.dropLast
+            -- below three vertices the plane is not defined any more
+            pushDrop point fuel vs' (if vs'.length < 3 then ⟨0, 0, 0⟩ else nrm)
+          else .ok (vs, nrm, true)
+        | .panic p, _ => .panic p
+        | .err e, _ => .err e
+        | _, .panic p => .panic p
+        | _, .err e => .err e
+      else .ok (vs, nrm, true)
 
 /-- `push` -/
 def push (l : Loop α) (point : V3 α) : Loop α × Res Unit :=
@@ -127,11 +140,13 @@ def push (l : Loop α) (point : V3 α) : Loop α × Res Unit :=
   | .err e => (l, .err e)
   | .panic p => (l, .panic p)
   | .ok () =>
-    match pushVertices l.vertices point with
+    match pushDrop point (l.vertices.length + 1) l.vertices l.normal with
     | .err e => (l, .err e)
     | .panic p => (l, .panic p)
-    | .ok vs =>
-      let l1 := { l with vertices := vs }
+    | .ok (vs, nrm, false) => ({ l with vertices := vs, normal := nrm }, .ok ())
+    | .ok (vs, nrm, true) =>
+      let vs := vs ++ [point]
+      let l1 := { l with vertices := vs, normal := nrm }
       if vs.length == 3 then l1.setNormal else (l1, .ok ())
 
 /-- the `for i in 0..n` loop of `set_perimeter` -/
